@@ -488,6 +488,12 @@ func c09BuildWorld(scheme *crypto.Scheme, portBase int, opts c09WorldOpts) (w *c
 	if err = w.snapshot("e2-accepted"); err != nil {
 		return nil, err
 	}
+	if err = w.deriveStage("e2-accepted", "e2-failed", Failed); err != nil {
+		return nil, err
+	}
+	if err = w.deriveStage("e2-accepted", "e2-timedout", TimedOut); err != nil {
+		return nil, err
+	}
 	w.Real["accept2"] = w.Bus.firstWire(func(p *drand.GossipPacket) bool {
 		return p.GetAccept() != nil && p.GetMetadata().GetAddress() == w.Nodes["B"].Addr
 	})
@@ -513,6 +519,42 @@ func c09BuildWorld(scheme *crypto.Scheme, portBase int, opts c09WorldOpts) (w *c
 	}
 	w.BuildSec = time.Since(t0).Seconds()
 	return w, nil
+}
+
+// deriveStage: the images of stage `from` with every node's current record moved to a terminal state (what an
+// execution that failed / a proposal that timed out leaves behind); the finished records stay as they are.
+func (w *c09World) deriveStage(from, to string, state Status) error {
+	out := map[string][]byte{}
+	for name, img := range w.Stages[from] {
+		dir, err := c09TempDir("c09-derive-")
+		if err != nil {
+			return err
+		}
+		if err := os.WriteFile(filepath.Join(dir, BoltFileName), img, 0o660); err != nil {
+			return err
+		}
+		st, err := NewDKGStore(dir)
+		if err != nil {
+			return err
+		}
+		cur, err := st.GetCurrent(w.BeaconID)
+		if err == nil && cur != nil && cur.State != Fresh {
+			cur.State = state
+			err = st.SaveCurrent(w.BeaconID, cur)
+		}
+		var buf bytes.Buffer
+		if err == nil {
+			err = st.db.View(func(tx *bolt.Tx) error { _, e := tx.WriteTo(&buf); return e })
+		}
+		_ = st.Close()
+		_ = os.RemoveAll(dir)
+		if err != nil {
+			return err
+		}
+		out[name] = buf.Bytes()
+	}
+	w.Stages[to] = out
+	return nil
 }
 
 // fork opens a new Process for node `name` on a copy of its dkg.db image taken at `stage`.
